@@ -125,6 +125,10 @@ struct Node { int k, mode, var, parent, pos, leafno, depth; std::vector<int> ch;
 //   IfElse bit0 -> role names "succ"/"fail"; Sequence bit0 -> default mode + setMode; LoopIf alt%3 -> default | setFinishResult(false) | setFinishResult(true);
 //   FunctionAction leaves: overload (alt/2+leafno)%4 of the four callable types; SleepAction leaves: bit0 -> Generator constructor
 struct Program { std::vector<Node> n; std::vector<Script> sc; int timeout; std::string text; int nleaves; long index; int weight; unsigned alt; int to_node; };
+// C17_PAUSE_ORACLE_ANY=1: demand "no running descendant" below EVERY paused node. Fails on the unchanged code (observation, reading question: resume() does not
+// withdraw a block notification that is still queued): Sequence[B1] ; start pass pause resume pass -> the leaf's queued block arrives after the resume, the root turns
+// kPause (blocked) while the leaf it has just resumed is running.
+static bool g_pause_any = getenv("C17_PAUSE_ORACLE_ANY") != nullptr;
 static char g_lane = 'A';   // A = main family | X = library leaves + late leaves | N = nested, representative kinds | T = timeout set/withdrawn while under way
 static unsigned alt_of(long index) { return (unsigned)((((uint32_t)index + 1u) * 2654435761u) >> 13) & 0xFFu; }
 
@@ -252,6 +256,7 @@ struct ProbeLeaf : Action {
   ProbeLeaf(event::Loop &l, World *w_, int ni_, Script s) : Action(l, "Probe"), w(w_), ni(ni_), sc(s) {}
   bool isReady() const override { return true; }
   void onStart() override; void onResume() override; void onStop() override; void onReset() override; void onFinal() override;
+  void onFinished(bool ok, const Reason &r, const Trace &t) override;    // (also reached when the leaf's own timeout finishes it)
   bool late() const { return sc.out == oLS || sc.out == oLF; }
   void arm(int d) { if (d == 0) fire(); else remaining = d; }
   // a late leaf's completion is outside the action's control: it arrives also when the leaf has been paused or stopped meanwhile (not after a reset:
@@ -304,6 +309,8 @@ struct World {
   std::vector<Action::FinishCallback> of; std::vector<Action::BlockCallback> ob;
   std::vector<int> ep, finals, fdeliv; std::vector<char> epwhy, by_timeout; std::vector<Mon> mon;
   std::vector<char> live, to_conf; std::vector<long long> t_arm;   // model: run of node i under way | a timeout is configured on node i | instant of the node's last start / set-timeout
+  std::vector<int> bcall, bdeliv, bgot;   // per run of node i: block() calls accepted on a probe leaf | block notifications delivered from i | block notifications received from children
+  bool user_paused = false;                // model: set by an accepted `pause` op, cleared by resume / stop / reset: while set nothing in the tree may start or complete
   bool destroyed = false;
   bool restart_armed = (g_lane == 'R');   // lane R: the user's finish callback re-uses the tree: reset(); start(); (once) - a control call made from inside a notification
   std::string trace, viol; bool quiet_trace = false;
@@ -360,7 +367,7 @@ struct World {
   void build(int root_timeout = -1) {    // root_timeout: -1 = as the program says, 0/1 = without/with a timeout on the root (fresh twin of a tree whose timeout was changed by an op)
     vnow = 1000000; Action::_id_alloc_counter_ = 0;
     act.assign(N, nullptr); leaf.assign(N, nullptr); of.resize(N); ob.resize(N); ep.assign(N, 0); finals.assign(N, 0); fdeliv.assign(N, 0); epwhy.assign(N, ' '); by_timeout.assign(N, 0); mon.assign(N, Mon());
-    live.assign(N, 0); to_conf.assign(N, 0); t_arm.assign(N, 0);
+    live.assign(N, 0); to_conf.assign(N, 0); t_arm.assign(N, 0); bcall.assign(N, 0); bdeliv.assign(N, 0); bgot.assign(N, 0);
     root = mk(0);
     for (int i = 0; i < N; i++) { if (i > 0) { of[i] = act[i]->finish_cb_; ob[i] = act[i]->block_cb_; } install(i);
       if (P.n[i].k != LEAF) static_cast<AssembleAction *>(act[i])->setFinalCallback([this, i] { finalHook(i); }); }
@@ -383,7 +390,7 @@ struct World {
 
   // ---------------------------------------------------------------- monitors (result oracle)
   std::string exp_str(const Mon &m) { char b[64]; const char *t[] = {"wait-for-child", "start-child", "start-all-children", "finish"}; snprintf(b, sizeof b, "%s(child=%d,result=%s)", t[m.exp], m.ec, m.er == R_ANY ? "any" : m.er ? "true" : "false"); return b; }
-  void nodeStart(int i) { finals[i] = 0; fdeliv[i] = 0; by_timeout[i] = 0; t_arm[i] = vnow; Mon m; m.started = true; const Node &n = P.n[i];
+  void nodeStart(int i) { finals[i] = 0; fdeliv[i] = 0; by_timeout[i] = 0; t_arm[i] = vnow; bcall[i] = bdeliv[i] = bgot[i] = 0; Mon m; m.started = true; const Node &n = P.n[i];
     if (n.k == PAR) { m.exp = E_ALL; m.k = 0; } else if (n.k != LEAF) { m.exp = E_START; m.ec = 0; } if (n.k == REPEAT) m.remain = n.var - 1; mon[i] = m; }
   void monChildStart(int i, int pos) { Mon &m = mon[i];
     if (m.exp == E_START && m.ec == pos) { m.exp = E_NONE; m.cur = pos; return; }
@@ -416,6 +423,7 @@ struct World {
   void hookStart(int i) {
     bool isleaf = P.n[i].k == LEAF; if (isleaf) tr("S%d", i);
     if (live[i]) V("child-started-again-while-previous-run-underway", std::string(isleaf ? "leaf " : "node ") + std::to_string(i));
+    if (user_paused) V("node-started-while-the-tree-is-paused", std::string(isleaf ? "leaf " : "node ") + std::to_string(i) + " was started after pause() and before resume()/stop()/reset()");
     live[i] = 1;
     if (P.n[i].parent >= 0) monChildStart(P.n[i].parent, P.n[i].pos);
     nodeStart(i);
@@ -423,6 +431,7 @@ struct World {
   void hookStop(int i) { live[i] = 0; bump(i, 's'); }
   void hookReset(int i) { live[i] = 0; bump(i, 'r'); }
   void hookFinished(int i, bool ok) { live[i] = 0; if (P.n[i].k != LEAF) return; tr(ok ? "f%d+" : "f%d-", i);
+    if (user_paused) V("leaf-completes-while-the-tree-is-paused", "library leaf " + std::to_string(i) + " finished after pause() and before resume()/stop()/reset()");
     int o = P.sc[P.n[i].leafno].out;    // library leaves: FunctionAction finishes with what its function returned, SleepAction with success (headers + FunctionAction/SleepAction tests)
     if ((o == oFP || o == oFM) && ok != (o == oFP)) V("function-leaf-result-differs-from-what-the-function-returned", "leaf " + std::to_string(i) + " function returned " + (o == oFP ? "true" : "false"));
     if (o == oSL && !ok) V("sleep-leaf-finished-with-failure", "leaf " + std::to_string(i)); }
@@ -442,6 +451,10 @@ struct World {
     tr("B%d", i);
     std::string where = i == 0 ? "" : "-inner";
     if (tag != ep[i]) V(std::string("stale-block-notification-after-") + (epwhy[i] == 's' ? "stop" : "reset") + where, "node " + std::to_string(i) + " delivered the block notification of a run that was " + (epwhy[i] == 's' ? "stopped" : "reset"));
+    if (tag == ep[i]) { bdeliv[i]++;    // every block notification has a cause: a block() call of the leaf itself / a block notification received from a child
+      int have = P.n[i].k == LEAF ? (leaf[i] ? bcall[i] : 0) : bgot[i];
+      if (bdeliv[i] > have) V("block-notification-without-a-cause", "node " + std::to_string(i) + " delivered " + std::to_string(bdeliv[i]) + " block notification(s) in this run but " + (P.n[i].k == LEAF ? "called block() " : "received ") + std::to_string(have));
+      if (i > 0 && underway(act[P.n[i].parent]->state())) bgot[P.n[i].parent]++; }
     if (i > 0 && ob[i]) ob[i](r, t);
     scan();
   }
@@ -460,7 +473,13 @@ struct World {
         std::vector<int> d; descend(i, d);
         for (int c : d) if (act[c]->isUnderway()) { V(std::string("descendant-left-underway-after-") + (by_timeout[i] ? "timeout-finish" : s == St::kFinished ? "finish" : "stop") + "-of-" + (by_timeout[i] && P.n[i].k != PAR ? "serial-composite" : kKind[P.n[i].k]),   // the serial composites share SerialAssembleAction
               "node " + std::to_string(i) + "(" + kKind[P.n[i].k] + ") is " + sname(s) + " but descendant " + std::to_string(c) + " is " + sname(act[c]->state())); return; }
+        for (int c : d) if (live[c]) { V(std::string("descendant-run-not-ended-after-") + (s == St::kFinished ? "finish" : "stop"), "node " + std::to_string(i) + "(" + kKind[P.n[i].k] + ") is " + sname(s) + " but the run of descendant " + std::to_string(c) + " was never ended by finish/stop/reset (implementation state " + sname(act[c]->state()) + ")"); return; }
       }
+      // pause oracle: between an accepted pause() of the root and the next resume/stop/reset nothing below the root is running and no paused SleepAction counts down.
+      // The general form (ANY paused node, also one paused by a block) does not hold on the unchanged code - see g_pause_any - and is off by default.
+      if (s == St::kPause && ((user_paused && i == 0) || g_pause_any || (user_paused && P.n[i].k == LEAF))) {
+        if (P.n[i].k != LEAF) { std::vector<int> d; descend(i, d); for (int c : d) if (act[c]->state() == St::kRunning) { V(std::string("descendant-left-running-below-paused-") + (P.n[i].k == PAR ? "Parallel" : "serial-composite"), "node " + std::to_string(i) + "(" + kKind[P.n[i].k] + ") is paused but descendant " + std::to_string(c) + " is running"); return; } }
+        else if (isSleep(i) && expiry(static_cast<SleepAction *>(act[i])->timer_) != -1) { V("paused-sleep-leaf-keeps-its-timer-armed", "leaf " + std::to_string(i)); return; } }
       if (s == St::kIdle) { std::vector<int> d; descend(i, d); for (int c : d) if (act[c]->state() != St::kIdle) { V("descendant-not-idle-below-idle-node", "node " + std::to_string(i) + " idle, descendant " + std::to_string(c) + " " + sname(act[c]->state())); return; } }
       if (s == St::kFinished && P.n[i].k != LEAF && !by_timeout[i] && !mon[i].done) { Mon &m = mon[i]; m.done = true;
         if (m.exp != E_FIN) { V(std::string(kKindLc[P.n[i].k]) + "-finished-without-documented-cause", "node " + std::to_string(i) + " finished while the documented next step is " + exp_str(m)); return; }
@@ -493,7 +512,7 @@ struct World {
     scan();
   }
   void resetRoot() {
-    if (root->state() != St::kIdle) bump(0, 'r'); root->reset();
+    user_paused = false; if (root->state() != St::kIdle) bump(0, 'r'); root->reset();
     for (auto &it : g_cl->run_next_func_queue_) if (it.what.empty()) stale_ids.insert(it.id);
     for (int i = 0; i < N && viol.empty(); i++) if (act[i]->state() != St::kIdle || act[i]->result() != Action::Result::kUnsure) V("reset-leaves-node-not-idle", "node " + std::to_string(i) + " " + sname(act[i]->state()));
   }
@@ -503,9 +522,9 @@ struct World {
     trace += n[o]; trace += ": ";
     switch (o) {
       case O_START: root->start(); break;
-      case O_PAUSE: root->pause(); break;
-      case O_RESUME: root->resume(); break;
-      case O_STOP: if (root->isUnderway()) bump(0, 's'); root->stop(); break;
+      case O_PAUSE: { bool was_running = root->state() == St::kRunning; bool acc = root->pause(); if (was_running && acc) user_paused = true; } break;
+      case O_RESUME: user_paused = false; root->resume(); break;
+      case O_STOP: user_paused = false; if (root->isUnderway()) bump(0, 's'); root->stop(); break;
       case O_RESET: resetRoot(); break;
       case O_PASS: pass(); break;
       case O_ADV: { long long m = heapMin(); if (m > vnow) vnow = m; } break;    // to the instant of the earliest armed timer (root/inner timeout, SleepAction)
@@ -551,7 +570,7 @@ struct World {
     trace += "drain: "; const int K = 48; bool stuck = false; int k = 0;
     for (; k < K && viol.empty(); k++) {
       if (!root->isUnderway()) break;
-      if (root->state() == St::kPause) { trace += "resume "; root->resume(); scan(); if (!viol.empty() || !root->isUnderway()) break; }
+      if (root->state() == St::kPause) { trace += "resume "; user_paused = false; root->resume(); scan(); if (!viol.empty() || !root->isUnderway()) break; }
       if (quiescent()) { long long se = sleepExpiry(); if (se < 0) { stuck = true; break; } if (se > vnow) vnow = se; }   // only a sleeping SleepAction is waited for (a pending timeout is not: `never` leaves must stay visible)
       pass();          // (no per-pass snapshot in the drain: a pass that runs a deferred task without any observable effect must not count as a difference)
     }
@@ -586,7 +605,7 @@ struct World {
   std::string canon() {
     std::string c = canon_impl(); char b[96]; c += "#";
     for (int i = 0; i < N; i++) { Mon &m = mon[i]; snprintf(b, sizeof b, "%d%d%d%d%d%d%d%d%d%d%d%d%d%d%d;", m.exp, m.ec + 1, m.er, m.cur + 1, m.remain, m.k, m.rec[0], m.rec[1], m.rec[2], m.rec[3], (int)m.dwp, (int)m.done, std::min(finals[i], 2), std::min(fdeliv[i], 2), (int)by_timeout[i]); c += b;
-      if (i == 0 && restart_armed) c += 'R'; c += live[i] ? 'L' : '.'; if (to_conf[i]) c += (vnow - t_arm[i] >= T_MS) ? "C+" : "C-"; }
+      if (i == 0 && restart_armed) c += 'R'; if (i == 0 && user_paused) c += 'U'; c += live[i] ? 'L' : '.'; c += (char)('0' + std::min(bcall[i], 3)); c += (char)('0' + std::min(bdeliv[i], 3)); c += (char)('0' + std::min(bgot[i], 3)); if (to_conf[i]) c += (vnow - t_arm[i] >= T_MS) ? "C+" : "C-"; }
     return c;
   }
 };
@@ -598,9 +617,11 @@ void ProbeLeaf::onStart() {
   what = o == oS ? 1 : o == oF ? 2 : o == oB ? 3 : 0; remaining = -1;
   if (what) arm(sc.delay);
 }
+void ProbeLeaf::onFinished(bool ok, const Reason &r, const Trace &t) { active = false; blocked = false; remaining = -1; w->live[ni] = 0; Action::onFinished(ok, r, t); }
 void ProbeLeaf::fire() {
   remaining = -1; int wh = what;
-  if (wh == 3) { blocked = true; what = 1; w->tr("b%d", ni); block(Reason(1000, "probe-block")); }
+  if (w->user_paused && !late()) w->V("leaf-completes-while-the-tree-is-paused", "leaf " + std::to_string(ni) + " was still counting down and " + (wh == 3 ? "blocked" : "finished") + " after pause() and before resume()/stop()/reset()");
+  if (wh == 3) { blocked = true; what = 1; w->tr("b%d", ni); if (block(Reason(1000, "probe-block"))) w->bcall[ni]++; }
   else { St before = state(); bool over = before == St::kStoped || before == St::kFinished;   // only a late leaf gets here when its run is over
     active = false; if (!over) w->live[ni] = 0; w->tr(wh == 1 ? "f%d+" : "f%d-", ni); bool acc = finish(wh == 1, Reason(1001, kMsg[sc.msg]));
     if (over && (acc || state() != before)) w->V("finish-accepted-after-the-run-was-over", "leaf " + std::to_string(ni) + " called finish() while " + World::sname(before) + ": returned " + (acc ? "true" : "false") + ", state now " + World::sname(state()));
